@@ -90,6 +90,8 @@ class StmtMixin:
         if isinstance(t, ast.Name):
             fr.env[t.id] = v
         elif isinstance(t, (ast.Tuple, ast.List)):
+            if isinstance(v, VOpt):
+                v = self.unwrap(v, t)
             if isinstance(v, PyList):
                 v = tuple(v.items)
             if z3.is_expr(v) and v.sort().name() in self.zs.rec_by_sort:
